@@ -101,7 +101,9 @@ func renderSv(v map[string]any, indent string) string {
 			pad := indent + "    "
 			lines := strings.Split(body, "\n")
 			for i := range lines {
-				lines[i] = pad + lines[i]
+				if lines[i] != "" { // an empty line stays empty: it does not count as indentation
+					lines[i] = pad + lines[i]
+				}
 			}
 			return "<<-EOT\n" + strings.Join(lines, "\n") + "\n" + pad + "EOT"
 		}
